@@ -763,9 +763,16 @@ impl Connection {
         let temp_built_in_files = Arc::clone(&self.temp_built_in_files);
         let thread_name = format!("nrepl-session-{id}");
 
+        #[cfg(wilfred_garden_verif)]
+        let verif_parent = format!("{:?}", thread::current().id());
+
         thread::Builder::new()
             .name(thread_name)
             .spawn(move || {
+                #[cfg(wilfred_garden_verif)]
+                crate::verif::point("worker.start", &verif_parent);
+                #[cfg(wilfred_garden_verif)]
+                let _verif_exit = crate::verif::PointOnDrop("worker.exit");
                 session_worker(
                     request_rx,
                     response_tx,
